@@ -687,7 +687,11 @@ def num_eval(r, env, want_complex=False):
             if k == 'norm':
                 return env['norm:%s' % (v[1],)]
             if k in _CMATH and isinstance(v[1], Rat):
-                return _CMATH[k](ev(v[1]))
+                try:
+                    return _CMATH[k](ev(v[1]))
+                except (ValueError, OverflowError, ZeroDivisionError):
+                    raise Undecided('no numeric value for %r at the witness'
+                                    % (v,))
             if k == 'sign' and isinstance(v[1], Rat):
                 z = ev(v[1]).real
                 return (z > 0) - (z < 0)
